@@ -236,8 +236,9 @@ func H_C05_midpoint() {
 	if !sxSymbolic() {
 		sxDebug("after", t.Newick())
 	}
+	// every branch has a length: midpoint rooting has no reason to refuse
+	sxAssert(err == nil, "RerootMidPoint succeeds on a tree whose branches all have a length")
 	if err != nil {
-		sxReach("refused")
 		return
 	}
 	sxAssert(t.Rooted(), "rooted after RerootMidPoint")
